@@ -8,7 +8,6 @@
 From Coq Require Import ZArith String List Bool Arith Lia.
 Import ListNotations.
 Require Import TV.Base.KeyTree TV.gen.Gen_keyflow TV.Model.KeyFlow.
-Set Default Timeout 60.
 Local Open Scope string_scope.
 Local Open Scope list_scope.
 
@@ -607,10 +606,14 @@ Proof.
 Qed.
 
 (* the invariant "both stored keys are unused (and distinct)" holds after every history *)
-Lemma inv_fold_calls : forall h st, Inv stored st -> Inv stored (fold_left run_call h st).
+Lemma fold_left_preserves : forall (A B : Type) (P : A -> Prop) (f : A -> B -> A),
+  (forall a b, P a -> P (f a b)) -> forall l a, P a -> P (fold_left f l a).
 Proof.
-  induction h as [|c h IH]; intros st HI; cbn [fold_left]; [exact HI|]. apply IH. apply inv_run_call. exact HI.
+  intros A B P f Hf. induction l as [|b l IH]; intros a Ha; cbn [fold_left]; [exact Ha|]. apply IH, Hf, Ha.
 Qed.
+
+Lemma inv_fold_calls : forall h st, Inv stored st -> Inv stored (fold_left run_call h st).
+Proof. exact (fold_left_preserves state call (Inv stored) run_call inv_run_call). Qed.
 
 Theorem inv_run : forall seed h, Inv stored (run seed h).
 Proof. intros seed h. unfold run. apply inv_fold_calls. apply inv_created. Qed.
@@ -708,14 +711,24 @@ Proof. intros l. apply extends_list. apply Forall_forall. intros s _. apply exec
 Lemma run_app : forall seed h1 h2, run seed (h1 ++ h2) = fold_left run_call h2 (run seed h1).
 Proof. intros. unfold run. apply fold_left_app. Qed.
 
-Lemma calls_extend : forall h st, exists t', st_trace (fold_left run_call h st) = st_trace st ++ t'.
+Lemma run_call_extends : forall c st, exists t', st_trace (run_call st c) = st_trace st ++ t'.
 Proof.
-  induction h as [|c h IH]; intros st; cbn [fold_left].
-  - exists []. symmetry. apply app_nil_r.
-  - destruct (IH (run_call st c)) as (t2 & H2).
-    destruct (exec_list_extends (prog_of (fst c)) (mkState (st_env st) (st_trace st) (snd c))) as (t1 & H1).
-    exists (t1 ++ t2). rewrite H2. unfold run_call. rewrite H1. cbn [st_trace]. rewrite app_assoc. reflexivity.
+  intros c st. destruct (exec_list_extends (prog_of (fst c)) (mkState (st_env st) (st_trace st) (snd c))) as (t1 & H1).
+  exists t1. unfold run_call. rewrite H1. reflexivity.
 Qed.
+
+Lemma fold_left_extends : forall (B : Type) (f : state -> B -> state),
+  (forall b st, exists t', st_trace (f st b) = st_trace st ++ t') ->
+  forall l st, exists t', st_trace (fold_left f l st) = st_trace st ++ t'.
+Proof.
+  intros B f Hf. induction l as [|b l IH]; intros st; cbn [fold_left].
+  - exists []. symmetry. apply app_nil_r.
+  - destruct (IH (f st b)) as (t2 & H2). destruct (Hf b st) as (t1 & H1).
+    exists (t1 ++ t2). rewrite H2, H1, app_assoc. reflexivity.
+Qed.
+
+Lemma calls_extend : forall h st, exists t', st_trace (fold_left run_call h st) = st_trace st ++ t'.
+Proof. exact (fold_left_extends call run_call run_call_extends). Qed.
 
 Lemma consumed_app : forall t t', consumed (t ++ t') = consumed t ++ consumed t'.
 Proof. intros. unfold consumed. apply flat_map_app. Qed.
@@ -782,13 +795,13 @@ Proof.
       apply in_map_iff in Hc. destruct Hc as (i & <- & _). cbn. apply Hks, Hk'.
     + apply (in_app_map_seed sd (st_trace st) (fun k => EvSplit k _)); [reflexivity | exact Hks].
   - cbn [exec]. destruct Hsd as [He Ht]. cbn [st_env st_trace] in *.
-    assert (Hks : forall k, In k (st_env st s) -> seed_of k = sd) by (intros k Hk; apply (He s k Hk)).
+    assert (Hks : forall y, In y (st_env st s) -> seed_of y = sd) by (intros y Hy; apply (He s y Hy)).
     destruct d as [d|].
     + eapply (seeded_upd sd (st_env st) (st_trace st) (st_oracle st)); [split; assumption | |].
-      * intros k Hk. apply in_map_iff in Hk. destruct Hk as (k' & <- & Hk'). cbn. apply Hks, Hk'.
+      * intros y Hy. apply in_map_iff in Hy. destruct Hy as (k' & <- & Hk'). cbn. apply Hks, Hk'.
       * apply (in_app_map_seed sd (st_trace st) EvConsume); [reflexivity | exact Hks].
     + split; cbn [st_env st_trace]; [exact He|]. intros ev Hev.
-      destruct (in_app_map_seed sd (st_trace st) EvConsume _ (fun k => eq_refl) Hks ev Hev) as [H|H]; [apply Ht, H | exact H].
+      destruct (in_app_map_seed sd (st_trace st) EvConsume _ (fun y => eq_refl) Hks ev Hev) as [H|H]; [apply Ht, H | exact H].
   - cbn [exec]. destruct Hsd as [He Ht]. cbn [st_env st_trace] in *.
     assert (Hks : forall k, In k (st_env st s) -> seed_of k = sd) by (intros k Hk; apply (He s k Hk)).
     eapply (seeded_upd sd (st_env st) (st_trace st) (st_oracle st)); [split; assumption | exact Hks |].
@@ -828,11 +841,13 @@ Proof.
   - intros e [].
 Qed.
 
-Lemma seeded_fold_calls : forall seed h st, seeded seed st -> seeded seed (fold_left run_call h st).
+Lemma seeded_run_call : forall seed st c, seeded seed st -> seeded seed (run_call st c).
 Proof.
-  intros seed. induction h as [|c h IH]; intros st Hst; cbn [fold_left]; [exact Hst|].
-  apply IH. unfold run_call. apply exec_list_keeps_seed. destruct Hst as [He Ht]. split; assumption.
+  intros seed st c Hst. unfold run_call. apply exec_list_keeps_seed. destruct Hst as [He Ht]. split; assumption.
 Qed.
+
+Lemma seeded_fold_calls : forall seed h st, seeded seed st -> seeded seed (fold_left run_call h st).
+Proof. intros seed. exact (fold_left_preserves state call (seeded seed) run_call (seeded_run_call seed)). Qed.
 
 Theorem run_seeded : forall seed h, seeded seed (run seed h).
 Proof.
